@@ -276,6 +276,18 @@ func ruleInput(c *Ctx) {
 						got[0] = true
 					case "setField":
 						got[1] = true
+					default:
+						// through a small helper of the interpreter that makes the call itself
+						if f := calleeOf(vm.pkg.TypesInfo, call); f != nil && f.Pkg() == vm.pkg.Types {
+							if sf := c.Prog.FuncValue(f); sf != nil {
+								if callsWithin(sf, "setLine", 1) {
+									got[0] = true
+								}
+								if callsWithin(sf, "setField", 1) {
+									got[1] = true
+								}
+							}
+						}
 					}
 				}
 			}
@@ -580,4 +592,23 @@ func ruleInput(c *Ctx) {
 	} else {
 		c.undecided("anchor:setFile", token.NoPos, "(*interp).setFile not found")
 	}
+}
+
+// callsWithin: fn calls a function named target of its own package, directly or through at most depth-1 intermediate
+// functions of the package that are not the dispatch loop.
+func callsWithin(fn *ssa.Function, target string, depth int) bool {
+	if fn == nil || depth <= 0 || len(fn.Blocks) > 60 {
+		return false
+	}
+	found := false
+	allInstrs(fn, func(in ssa.Instruction) {
+		if ci, ok := in.(ssa.CallInstruction); ok {
+			if g := ci.Common().StaticCallee(); g != nil && g.Pkg == fn.Pkg {
+				if g.Name() == target || callsWithin(g, target, depth-1) {
+					found = true
+				}
+			}
+		}
+	})
+	return found
 }
